@@ -207,17 +207,6 @@ func (m *memFS) hstats() []string {
 	return out
 }
 
-func (m *memFS) leakedMain() bool {
-	m.mu.Lock()
-	defer m.mu.Unlock()
-	for _, h := range m.handles {
-		if h.name == "bad" {
-			return true
-		}
-	}
-	return false
-}
-
 func waitFor(f func() bool) bool {
 	deadline := time.Now().Add(3 * time.Second)
 	for i := 0; ; i++ {
@@ -286,6 +275,7 @@ type replayer struct {
 	blocks   []string
 	kinds    map[string]int
 	stuck    bool
+	leak     bool
 }
 
 // number the handles opened since the last call, report main handles opened / closed (in order)
@@ -391,8 +381,13 @@ func (rp *replayer) finishRequest(ctx *fasthttp.RequestCtx, h, file, mode int, m
 	status := ctx.Response.StatusCode()
 	if status == fasthttp.StatusNotFound {
 		if mainOpened != nil {
-			labels = append(labels, "OpenFail "+n(mainOpened.num))
-			rp.kinds["(leak)"]++
+			if mainOpened.closes.Load() > 0 { // the error path closed what it had opened
+				labels = append(labels, "OpenAbort "+n(mainOpened.num))
+			} else { // ... or forgot to (finding open-error-leak)
+				labels = append(labels, "OpenFail "+n(mainOpened.num))
+				rp.kinds["(leak)"]++
+				rp.leak = true
+			}
 		}
 		rp.emit(labels)
 		return
@@ -671,7 +666,7 @@ func runReplay(d desc) hlib.Case {
 		c.Kind = "replay-stuck"
 		rp.blocks = append(rp.blocks, fmt.Sprintf("(Blk [Release 999%%nat] %s)", rp.obs()))
 	}
-	if rp.m.leakedMain() {
+	if rp.leak {
 		c.Key = "open-error-leak"
 	}
 	c.Coq = fmt.Sprintf("(CReplay (mkCfg false) %s %s %s)", hlib.Bool(d.Noop), hlib.List(rp.blocks), hlib.List(rp.m.hstats()))
